@@ -31,9 +31,13 @@ def xform_check(prop, tier, replay, kind, filt, rule, n=4):
                               simulate=sp.get("simulate"), depth=sp.get("depth", 20))
                 if gen["violated"]:
                     raise ToolError(f"spec invariant {gen['violated']} violated in Gen_G")
+                # the thorough universe yields millions of grammars: every k-th is transformed and validated (cap 200 000)
+                with open(part) as f:
+                    nlines = sum(1 for _ in f)
+                every = max(1, -(-nlines // 200000))
                 seen = set()
-                for l in open(part):
-                    if l not in seen:
+                for li, l in enumerate(open(part)):
+                    if l not in seen and li % every == 0:
                         seen.add(l)
                         fall.write(l)
                 os.remove(part)
@@ -42,7 +46,7 @@ def xform_check(prop, tier, replay, kind, filt, rule, n=4):
                 space_cov.append({"constants": {k: (sorted(v) if isinstance(v, (set, frozenset)) else v)
                                                 for k, v in sp["constants"].items()},
                                   "mode": "exhaustive" if not sp.get("simulate") else f"tlc -simulate num={sp['simulate']} x 16 seeds",
-                                  "states": gen["distinct"], "vectors": len(seen)})
+                                  "states": gen["distinct"], "vectors": len(seen), "every": every})
     outp = os.path.join(OUT, f"{prop}_{tier}.replay.ndjson")
     pv(["replay", "xform", vec_path, outp], env={"PV_XFORM": kind, "PV_LANGN": n})
     res = read_ndjson(outp)
